@@ -159,6 +159,18 @@ Changes(x, t, i) ==
             /\ res' = [op |-> "changes", tx |-> x, t |-> t, it |-> i, err |-> ""]
     /\ UNCHANGED << root, snap, chan >>
 
+\* statedb.Observable(db, table).Observe: the library itself creates the iterator in a committed transaction of its
+\* own (no write: revisions and channels are untouched) and then calls Next with a fresh snapshot whenever the
+\* returned channel closes; each batch it pushes to the subscriber is an IterNext of this iterator
+ObserveStart(i, t) ==
+    /\ i \notin DOMAIN iter /\ t \in Tables
+    /\ \A y \in DOMAIN wtx : wtx[y].st = "open" => t \notin wtx[y].tabs
+    /\ root' = [root EXCEPT ![t].trk = @ \cup {i}]
+    /\ iter' = (i :> [t |-> t, crev |-> root[t].rev, tx |-> 0, st |-> "open",
+                      last |-> 0, mark |-> root[t].rev, replay |-> << >>, dels |-> {}, wrev |-> root[t].rev]) @@ iter
+    /\ res' = [op |-> "observe", it |-> i, t |-> t]
+    /\ UNCHANGED << wtx, snap, chan >>
+
 \* replay one delivered change <<pk, val, rev, del>> into a sorted row sequence
 RowPos(rows, pk) == Cardinality({ j \in 1..Len(rows) : Less(rows[j][1], pk) }) + 1
 ReplayOne(rows, c) ==
